@@ -227,6 +227,185 @@ pub fn verify_data(master_secret: &[u8], label: &[u8], transcript: &[u8]) -> Vec
     prf_sha256(master_secret, label, &h, 12)
 }
 
+// ------------------------------------------------------------------ builders / active party
+// (used by C02's takeover sub-check: a harness-implemented on-path party that completes the
+// handshake itself; ECDH and ECDSA signing through `ring`, nothing shared with rustrtc)
+
+/// A whole (unfragmented) DTLS handshake message.
+pub fn build_hs(msg_type: u8, message_seq: u16, body: &[u8]) -> Vec<u8> {
+    let l = body.len() as u32;
+    let mut v = vec![msg_type, (l >> 16) as u8, (l >> 8) as u8, l as u8];
+    v.extend_from_slice(&message_seq.to_be_bytes());
+    v.extend_from_slice(&[0, 0, 0]);
+    v.extend_from_slice(&[(l >> 16) as u8, (l >> 8) as u8, l as u8]);
+    v.extend_from_slice(body);
+    v
+}
+
+/// Same message under another message_seq.
+pub fn with_seq(raw: &[u8], message_seq: u16) -> Vec<u8> {
+    let mut v = raw.to_vec();
+    if v.len() >= 6 {
+        v[4..6].copy_from_slice(&message_seq.to_be_bytes());
+    }
+    v
+}
+
+/// ECDHE ServerKeyExchange body for secp256r1 with the given share and signature bytes
+/// (SignatureAndHashAlgorithm sha256/ecdsa).
+pub fn ske_body(share: &[u8], signature: &[u8]) -> Vec<u8> {
+    let mut v = vec![3u8, 0, 23, share.len() as u8];
+    v.extend_from_slice(share);
+    v.extend_from_slice(&[4, 3]);
+    v.extend_from_slice(&(signature.len() as u16).to_be_bytes());
+    v.extend_from_slice(signature);
+    v
+}
+
+/// The bytes a ServerKeyExchange signature covers.
+pub fn ske_signed_bytes(client_random: &[u8; 32], server_random: &[u8; 32], share: &[u8]) -> Vec<u8> {
+    let mut m = Vec::new();
+    m.extend_from_slice(client_random);
+    m.extend_from_slice(server_random);
+    m.extend_from_slice(&[3, 0, 23, share.len() as u8]);
+    m.extend_from_slice(share);
+    m
+}
+
+pub fn certificate_body(chain: &[Vec<u8>]) -> Vec<u8> {
+    let total: usize = chain.iter().map(|c| 3 + c.len()).sum();
+    let u24 = |n: usize| [(n >> 16) as u8, (n >> 8) as u8, n as u8];
+    let mut v = u24(total).to_vec();
+    for c in chain {
+        v.extend_from_slice(&u24(c.len()));
+        v.extend_from_slice(c);
+    }
+    v
+}
+
+/// Does a ServerHello body carry the extended_master_secret extension (RFC 7627)?
+pub fn server_hello_has_ems(body: &[u8]) -> bool {
+    // version(2) random(32) session_id(1+n) cipher(2) compression(1) extensions(2+..)
+    let mut o = 34;
+    if body.len() < o + 1 {
+        return false;
+    }
+    o += 1 + body[o] as usize;
+    o += 3;
+    if body.len() < o + 2 {
+        return false;
+    }
+    o += 2;
+    while body.len() >= o + 4 {
+        let t = u16::from_be_bytes([body[o], body[o + 1]]);
+        let l = u16::from_be_bytes([body[o + 2], body[o + 3]]) as usize;
+        if t == 23 {
+            return true;
+        }
+        o += 4 + l;
+    }
+    false
+}
+
+/// Public share of a ClientKeyExchange body (ECDHE: 1-byte length + point).
+pub fn cke_share(body: &[u8]) -> Option<Vec<u8>> {
+    let l = *body.first()? as usize;
+    if body.len() < 1 + l {
+        return None;
+    }
+    Some(body[1..1 + l].to_vec())
+}
+
+/// An ephemeral P-256 ECDH key of the harness.
+pub struct EcdhKey {
+    private: Option<ring::agreement::EphemeralPrivateKey>,
+    pub public: Vec<u8>,
+}
+
+impl EcdhKey {
+    pub fn generate() -> Option<Self> {
+        let rng = ring::rand::SystemRandom::new();
+        let private = ring::agreement::EphemeralPrivateKey::generate(&ring::agreement::ECDH_P256, &rng).ok()?;
+        let public = private.compute_public_key().ok()?.as_ref().to_vec();
+        Some(Self { private: Some(private), public })
+    }
+    /// X coordinate of the shared point (the TLS premaster secret); usable once.
+    pub fn agree(&mut self, peer_share: &[u8]) -> Option<Vec<u8>> {
+        let k = self.private.take()?;
+        let peer = ring::agreement::UnparsedPublicKey::new(&ring::agreement::ECDH_P256, peer_share);
+        ring::agreement::agree_ephemeral(k, &peer, |z| z.to_vec()).ok()
+    }
+}
+
+/// PEM body -> DER (own base64 reader).
+pub fn pem_to_der(pem: &str) -> Vec<u8> {
+    let mut bits: u32 = 0;
+    let mut n = 0;
+    let mut out = Vec::new();
+    for line in pem.lines() {
+        if line.starts_with("-----") {
+            continue;
+        }
+        for c in line.bytes() {
+            let v = match c {
+                b'A'..=b'Z' => c - b'A',
+                b'a'..=b'z' => c - b'a' + 26,
+                b'0'..=b'9' => c - b'0' + 52,
+                b'+' => 62,
+                b'/' => 63,
+                _ => continue,
+            };
+            bits = (bits << 6) | v as u32;
+            n += 6;
+            if n >= 8 {
+                n -= 8;
+                out.push((bits >> n) as u8);
+                bits &= (1 << n) - 1;
+            }
+        }
+    }
+    out
+}
+
+/// ECDSA-P256-SHA256 ASN.1 signature with a PKCS#8 PEM key.
+pub fn ecdsa_sign_pem(pkcs8_pem: &str, msg: &[u8]) -> Option<Vec<u8>> {
+    let rng = ring::rand::SystemRandom::new();
+    let der = pem_to_der(pkcs8_pem);
+    let kp = ring::signature::EcdsaKeyPair::from_pkcs8(&ring::signature::ECDSA_P256_SHA256_ASN1_SIGNING, &der, &rng).ok()?;
+    Some(kp.sign(&rng, msg).ok()?.as_ref().to_vec())
+}
+
+/// Keys of a TLS_ECDHE_ECDSA_WITH_AES_128_GCM_SHA256 session (RFC 5246 6.3, RFC 5288, RFC 7627).
+#[derive(Clone, Debug)]
+pub struct GcmKeys {
+    pub master_secret: Vec<u8>,
+    pub client_write_key: Vec<u8>,
+    pub server_write_key: Vec<u8>,
+    pub client_write_iv: Vec<u8>,
+    pub server_write_iv: Vec<u8>,
+}
+
+/// `transcript_to_cke`: handshake messages ClientHello..ClientKeyExchange (used when `ems`).
+pub fn derive_keys(premaster: &[u8], ems: bool, transcript_to_cke: &[u8], client_random: &[u8; 32], server_random: &[u8; 32]) -> GcmKeys {
+    let master_secret = if ems {
+        prf_sha256(premaster, b"extended master secret", &Sha256::digest(transcript_to_cke), 48)
+    } else {
+        let mut seed = client_random.to_vec();
+        seed.extend_from_slice(server_random);
+        prf_sha256(premaster, b"master secret", &seed, 48)
+    };
+    let mut seed = server_random.to_vec();
+    seed.extend_from_slice(client_random);
+    let kb = prf_sha256(&master_secret, b"key expansion", &seed, 40);
+    GcmKeys {
+        master_secret,
+        client_write_key: kb[0..16].to_vec(),
+        server_write_key: kb[16..32].to_vec(),
+        client_write_iv: kb[32..36].to_vec(),
+        server_write_iv: kb[36..40].to_vec(),
+    }
+}
+
 #[cfg(test)]
 mod tests {
     use super::*;
@@ -238,6 +417,20 @@ mod tests {
             crate::engine::hex(&r),
             "5bdcc146bf60754e6a042426089575c75a003f089d2739839dec58b964ec3843"
         );
+    }
+
+    #[test]
+    fn ecdh_and_sign_roundtrip() {
+        let (mut a, mut b) = (EcdhKey::generate().unwrap(), EcdhKey::generate().unwrap());
+        let (pa, pb) = (a.public.clone(), b.public.clone());
+        assert_eq!(a.agree(&pb).unwrap(), b.agree(&pa).unwrap());
+        assert_eq!(pem_to_der("-----BEGIN X-----\nTWFu\nTWE=\n-----END X-----\n"), b"ManMa".to_vec());
+        let m = build_hs(12, 3, &ske_body(&[4u8; 65], &[1, 2, 3]));
+        let parsed = hs_messages(&m);
+        assert!(parsed[0].whole() && parsed[0].message_seq == 3);
+        let ske = parse_ske(&parsed[0].body).unwrap();
+        assert_eq!(ske.signature, vec![1, 2, 3]);
+        assert_eq!(with_seq(&m, 9)[4..6], [0, 9]);
     }
 
     #[test]
